@@ -1018,8 +1018,23 @@ def check_sync(run: Run, prog: Program, rule: str = "C06.SYNC") -> None:
                         and (body0[0] == f.id or cfg.path(body0[0], [f.id], edge_ok=eq) is None) \
                         and cfg.path(body0[0], [o_id], avoid=[f.id], edge_ok=eq) is not None
                     detail = "a lagging group is not drained, or an aligned group is"
+                def of_current(rel: str) -> Callable[[ast.AST, int], Tri]:
+                    """rel_atom(), but only for comparisons of the timestamp the drain loop tracks -- a test of the group's
+                    own (stale) first timestamp after the drain says nothing about where the drain ended."""
+                    base = rel_atom(rel)
+
+                    def atom(e: ast.AST, nid: int) -> Tri:
+                        v = base(e, nid)
+                        if v is not None and isinstance(e, ast.Compare):
+                            now = fl.origin(ast.Name(id=tsv, ctx=ast.Load()), nid)
+                            if not any(names_eq(fl.origin(x, nid), now) for x in (e.left, e.comparators[0]) if not is_latest(x, nid)):
+                                return None
+                        return v
+
+                    return atom
+
                 if ok:
-                    gt = pruned(cfg, lifted(fl, rel_atom("gt")))
+                    gt = pruned(cfg, lifted(fl, of_current("gt")))
                     ok = bool(wfalse) and all(m != o_id and cfg.path(m, [o_id, cfg.exit], edge_ok=gt) is None for m in wfalse)
                     detail = "overshooting the target timestamp is not an error"
                 if ok:
